@@ -890,7 +890,7 @@ def expect_complete(prog, ms):
     return True  # drop, delete, set operations are complete from their entry point on
 
 
-SQLITE_UNSUPPORTED = {"for_update", "force_index", "use_index", "rollup", "prewhere", "with_totals", "replace",
+SQLITE_UNSUPPORTED = {"for_update", "force_index", "use_index", "rollup", "prewhere", "with_totals",
                       "unlogged", "with_system_versioning", "period_for"}
 
 
